@@ -534,7 +534,7 @@ def e2e_worker(case):
             calls[build] = call
             res[build] = call(bool(case.get("phase", True)))
         out["equal_with_phase_off"] = None
-        if case.get("phase", True) and set(compare(res["hg19"], res["hg38"])) == {"scores-equal"}:
+        if case.get("phase", True) and compare(res["hg19"], res["hg38"]):
             # is the phase term the only thing that differs?  (observed fact about this input, recorded in the description)
             out["equal_with_phase_off"] = not compare(calls["hg19"](False), calls["hg38"](False))
         pairs, only_one = transport_pairs(genes["hg19"], genes["hg38"])
@@ -553,8 +553,13 @@ def e2e_worker(case):
         def merged(build):
             n = len(desc["refseq"])
             vs = sorted({(v[0], v[1]) for al in alleles for part in al.split("#") for v in desc["alleles"][part]["variants"]})
-            site = {v: gendb._to_genome(desc["builds"][build], n, v[0], v[1])[0] for v in vs}
-            return sorted([list(a), list(b)] for i, a in enumerate(vs) for b in vs[i + 1:] if site[a] == site[b])
+            def foot(v):
+                p, op = gendb._to_genome(desc["builds"][build], n, v[0], v[1])
+                ln = len(op[3:].split("ins")[0]) if op.startswith("del") else (len(op.split(">")[0]) if ">" in op else 1)
+                return (p, p + max(1, ln))
+            fp = {v: foot(v) for v in vs}
+            # two variants meet when the footprints (deleted / substituted bases; the keyed base of an insertion) overlap
+            return sorted([list(a), list(b)] for i, a in enumerate(vs) for b in vs[i + 1:] if fp[a][0] < fp[b][1] and fp[b][0] < fp[a][1])
         out["planted_site_merge_differs"] = merged("hg19") != merged("hg38")
         out.update(res=res, inj=inj, sp=sp, only_one=only_one, term=coq_hypotheses_term(pairs) if len(pairs) <= 200 else None,
                    same_site=same_site_sub_and_del(genes["hg19"]), planted_same_site=bool(case.get("plant_same_site")))
